@@ -43,7 +43,8 @@ ASSUMPTIONS = [
     "the interpreter's default flags (debug info dropped), not taken from a published wheel",
     "setup.py is replayed, not executed (it needs the network): cmurmur3 + cassandra/*.pyx (quick) plus the nine "
     "cythonized .py modules (thorough); libev wrapper and numpy parser are not built (no ev.h, no numpy) and are outside the statement",
-    "exception *classes* are compared, messages are not; cell bytes come from spec.values.encode (independent of the driver)",
+    "an input that one build decodes and the other refuses is a difference; an input both refuse is not (classes/messages of "
+    "the two refusals are not compared); cell bytes come from spec.values.encode (independent of the driver)",
     "a worker that dies on a request (e.g. segfault in compiled code) is reported as a violation of that request",
 ]
 LEVEL_TEXT = ("generated search over well-formed inputs: finds differences between the builds, does not prove their absence")
@@ -567,12 +568,14 @@ def _is_tagged(x):
 
 def first_diff(a, b, path=(), na=None, nb=None):
     """-> None or (path, node_a, node_b): innermost tagged nodes around the first difference.
-    ["exc", class, message] nodes are compared by class only."""
+    Two ["exc", class, message] nodes agree; an exception against a value does not."""
     if _is_tagged(a) and _is_tagged(b):
         if a[0] != b[0]:
             return path, a, b
         if a[0] == "exc":
-            return None if a[1] == b[1] else (path, a, b)
+            # both builds refuse the input: neither "decodes to objects", the statement is silent on the
+            # class of the refusal (the compiled parsers wrap theirs in DriverException)
+            return None
         na, nb = a, b
     if type(a) is not type(b):
         return path, (na if na is not None else a), (nb if nb is not None else b)
@@ -602,8 +605,6 @@ def _feature(na, nb):
         e = na if ta == "exc" else nb
         other = tb if ta == "exc" else ta
         side = "pure-raises" if ta == "exc" else "compiled-raises"
-        if ta == tb:
-            return ["raises-differently", "%s/%s" % (na[1], nb[1])]
         return [side, e[1], e[2]]
     if ta != tb:
         return ["shape", "%s/%s" % (ta, tb)]
@@ -776,7 +777,9 @@ def s_rows(max_depth=3):
             "stream": draw(st.sampled_from([0, 1, 127, 128, 32767, -1])) if pv >= 3 else draw(st.sampled_from([0, 1, 127, -1])),
         }
         if opts["no_metadata"]:
+            # (the driver stops reading the metadata block at the NO_METADATA flag, so these never co-occur usefully)
             opts["new_metadata_id"] = None
+            opts["continuous_page"] = None
         return {"pv": pv, "cols": cols, "rows": rows, "opts": opts}
     return build()
 
@@ -877,8 +880,6 @@ def interpret_rows(case, ctx):
         if len(path) >= 2 and path[0] == 2:
             feats.append(str(path[1]))
             if path[1] == "parsed_rows" and len(path) >= 6 and isinstance(path[5], int) and path[5] < len(case["cols"]):
-                tree = V.core(case["cols"][path[5]]["tree"])
-                feats.append(tree["t"])
                 r = path[3]
                 if isinstance(r, int) and r < len(case["rows"]):
                     v = case["rows"][r][path[5]]
@@ -889,7 +890,9 @@ def interpret_rows(case, ctx):
         return feats
 
     mode = _mode()
-    differential(ctx, "C07.rows", mode, req, [("plain", "plain"), ("list", "plain"), ("lazy", "plain")], describe)
+    mine = differential(ctx, "C07.rows", mode, req, [("plain", "plain"), ("list", "plain"), ("lazy", "plain")], describe)
+    if _is_tagged(mine.get("plain")) and mine["plain"][0] == "exc":
+        ctx.label("rows:pure-raises:" + mine["plain"][1])
     composite = seen & {"list", "set", "map", "tuple", "udt", "vector"}
     ctx.nontrivial(bool(case["rows"]) and bool(composite or (seen & _INTERESTING_SCALARS) or nulls or empties))
 
